@@ -18,7 +18,7 @@ func init() {
 		Assumptions: []string{
 			"H264 frames A: 12 shapes of up to 10 packets mixing single NAL units, STAP-A and FU-A trains (reference encoder); frames B: single / STAP-A / FU-A train / FU-A train + single; Annex-B and AVC output",
 			"AV1 frames A: 8 OBU sequences packetized by AV1Payloader at small MTUs into up to 10 packets with Z/Y chains; frames B start with Z=0, with and without N=1",
-			"ALL loss subsets of A (2^n, n <= 10) delivered in order; garbage prefix: every sequence of up to 2 strings from an 8-string corpus per codec (nil, empty, orphan fragments, truncated aggregation, start of a never-finished fragment)",
+			"ALL loss subsets of A (2^n, n <= 10) delivered in order; garbage: every sequence of up to 2 strings before frame A and 0-1 string between the delivered part of A and frame B, from an 8 (H264) / 12 (AV1) string corpus (nil, empty, orphan fragments, truncated aggregation, start of a never-finished fragment)",
 		},
 		Scenarios: []mc.Scenario{
 			{Name: "h264-loss-then-intact-frame", Tiers: "qt", ShardDepth: 4, Run: c15H264},
@@ -42,7 +42,10 @@ func c15H264Frame(shape string, seed int) [][]byte {
 			out = append(out, ref.H264StapAPayload([][]byte{ref.H264Unit(7, 3, 4, s), ref.H264Unit(8, 3, 3, s+1)}))
 		case ch >= '2' && ch <= '9':
 			n := int(ch - '0')
-			u := ref.H264Unit(5, 3, 1+2*n, s)
+			// fragmented units differ in type and NRI between frames and inside a frame, so
+			// that a header remembered from an abandoned unit shows
+			typ, nri := []uint8{5, 1, 7}[(seed+i)%3], []uint8{3, 2, 1}[(seed+i)%3]
+			u := ref.H264Unit(typ, nri, 1+2*n, s)
 			var cuts []int
 			for k := 1; k < n; k++ {
 				cuts = append(cuts, 2*k)
@@ -64,7 +67,7 @@ type c15Depack interface {
 
 // c15Run delivers prefix + subset of A + B to one depacketizer and compares B's outputs
 // with a fresh one.
-func c15Run(c *mc.Ctx, mk func() rtp.Depacketizer, garbage, frameA [][]byte, mask int, frameB [][]byte, desc func() string) {
+func c15Run(c *mc.Ctx, mk func() rtp.Depacketizer, garbage, frameA [][]byte, mask int, between [][]byte, frameB [][]byte, desc func() string) {
 	d := mk()
 	safe := func(p []byte) {
 		// outputs and errors of the history are irrelevant, panics are not
@@ -80,6 +83,9 @@ func c15Run(c *mc.Ctx, mk func() rtp.Depacketizer, garbage, frameA [][]byte, mas
 			safe(clone(p))
 			delivered++
 		}
+	}
+	for _, g := range between {
+		safe(clone(g))
 	}
 	fresh := mk()
 	for i, p := range frameB {
@@ -123,21 +129,26 @@ func c15H264(c *mc.Ctx) {
 	frameA := c15H264Frame(a, 1)
 	frameB := c15H264Frame(b, 2)
 	garbage := c15Garbage(c, c15H264Garbage)
-	if len(garbage) == 2 && len(frameA) > 6 {
-		return // long frames only with at most one garbage string (bounds the product)
+	if len(garbage) > 0 && len(frameA) > 6 {
+		return // long frames only without a garbage prefix (bounds the product)
 	}
 	mask := c.Pick(1 << uint(len(frameA)))
+	var between [][]byte
+	if k := c.Pick(len(c15H264Garbage) + 1); k > 0 {
+		between = [][]byte{c15H264Garbage[k-1]}
+	}
 	desc := func() string {
-		return fmt.Sprintf("H264 AVC=%v garbage %s, frame A shape %q packets %s delivered %s, frame B shape %q", avc, hxs(garbage), a, hxs(frameA), c15Mask(len(frameA), mask), b)
+		return fmt.Sprintf("H264 AVC=%v garbage %s, frame A shape %q packets %s delivered %s, then garbage %s, frame B shape %q", avc, hxs(garbage), a, hxs(frameA), c15Mask(len(frameA), mask), hxs(between), b)
 	}
 	if c.Verbose() {
 		c.Notef("%s", desc())
 	}
-	c15Run(c, func() rtp.Depacketizer { return &codecs.H264Packet{IsAVC: avc} }, garbage, frameA, mask, frameB, desc)
+	c15Run(c, func() rtp.Depacketizer { return &codecs.H264Packet{IsAVC: avc} }, garbage, frameA, mask, between, frameB, desc)
 	c.Outcome(fmt.Sprintf("A=%s B=%s", a, b))
 }
 
-var c15AV1Garbage = [][]byte{nil, {}, {0x00}, {0x80, 0x01, 0x02}, {0x40, 0x30, 0x00}, {0x10, 0xFF, 0xFF}, {0xC0, 0x02, 0x30, 0x01}, {0x50, 0x30, 0x01, 0x02}}
+var c15AV1Garbage = [][]byte{nil, {}, {0x00}, {0x80, 0x01, 0x02}, {0x40, 0x30, 0x00}, {0x10, 0xFF, 0xFF}, {0xC0, 0x02, 0x30, 0x01}, {0x50, 0x30, 0x01, 0x02},
+	{0xA0, 0x7F, 0x01}, {0x90, 0x80}, {0x80, 0x05, 0x01}, {0x90, 0x30}}
 
 type c15AV1Shape struct {
 	mtu  int
@@ -182,16 +193,20 @@ func c15AV1(c *mc.Ctx) {
 		panic(mc.EngineError{Msg: "frame B does not start with Z=0"})
 	}
 	garbage := c15Garbage(c, c15AV1Garbage)
-	if len(garbage) == 2 && len(frameA) > 6 {
+	if len(garbage) > 0 && len(frameA) > 6 {
 		return
 	}
 	mask := c.Pick(1 << uint(len(frameA)))
+	var between [][]byte
+	if k := c.Pick(len(c15AV1Garbage) + 1); k > 0 {
+		between = [][]byte{c15AV1Garbage[k-1]}
+	}
 	desc := func() string {
-		return fmt.Sprintf("AV1 garbage %s, frame A %s packets %s delivered %s, frame B %s", hxs(garbage), c13Describe(sa.mtu, sa.obus, false), hxs(frameA), c15Mask(len(frameA), mask), hxs(frameB))
+		return fmt.Sprintf("AV1 garbage %s, frame A %s packets %s delivered %s, then garbage %s, frame B %s", hxs(garbage), c13Describe(sa.mtu, sa.obus, false), hxs(frameA), c15Mask(len(frameA), mask), hxs(between), hxs(frameB))
 	}
 	if c.Verbose() {
 		c.Notef("%s", desc())
 	}
-	c15Run(c, func() rtp.Depacketizer { return &codecs.AV1Depacketizer{} }, garbage, frameA, mask, frameB, desc)
+	c15Run(c, func() rtp.Depacketizer { return &codecs.AV1Depacketizer{} }, garbage, frameA, mask, between, frameB, desc)
 	c.Outcome(fmt.Sprintf("A=%d B=%d", ai, bi))
 }
